@@ -43,7 +43,11 @@ def install(g, prop, model_names):
         m = pick(op)
         return m.matches_known(k, op, il, mres, tag) if m and hasattr(m, "matches_known") else False
 
-    g.update(canon_model=canon_model, equiv=equiv, predicate=predicate, nontrivial=nontrivial, branch=branch,
+    def weight(op):
+        m = pick(op)
+        return m.weight(op) if m and hasattr(m, "weight") else 1
+
+    g.update(weight=weight, canon_model=canon_model, equiv=equiv, predicate=predicate, nontrivial=nontrivial, branch=branch,
              matches_known=matches_known)
     rules, trusted, assumptions = [], [], []
     for n in model_names:
